@@ -265,6 +265,15 @@ class C12(Prop):
                 ctx.stats["trace_steps_validated"] = ctx.stats.get("trace_steps_validated", 0) + tr.count(";") + 1
                 if not res[0].startswith("ok "):
                     return (i, "trace: " + res[0][:400], "trace: a path of the work-queue model")
+            if op.startswith("dsqrt ") and " trace=" in l and not l.endswith(" trace=-"):
+                tr = l[l.find(" trace=") + 7:]
+                a, r = kv(op), kv(l[:l.find(" trace=")])
+                i0s = ",".join(c.split(":")[0] for c in r["chunks"].split(",")) if r.get("chunks", "-") != "-" else "-"
+                U = int(a["unpackers"]) or 4
+                res = run_side(ctx.driver_exe, [{"name": "t", "ops": ["dsqtrace U=%d C=%s i0=%s ev=%s" % (U, a["consumers"], i0s, tr)]}], cwd=ctx.work)[0] or ["<no answer>"]
+                ctx.stats["trace_steps_validated"] = ctx.stats.get("trace_steps_validated", 0) + tr.count(";") + 1
+                if not res[0].startswith("ok "):
+                    return (i, "trace: " + res[0][:400], "trace: a path of the dsqdata pipeline model")
             if op.startswith("thrun ") and " trace=" in l:
                 tr = l[l.find(" trace=") + 7:]
                 res = run_side(ctx.driver_exe, [{"name": "t", "ops": ["thtrace ev=%s" % tr]}], cwd=ctx.work)[0] or ["<no answer>"]
@@ -321,7 +330,7 @@ class C12(Prop):
                 r = kv(l)
                 nseq = 0 if a["dsq"] == "-" else a["dsq"].count(",") + 1
                 unx = lambda x: list(bytes.fromhex(x[1:]))
-                if not l.startswith("ok ") or r.get("dup") != "0" or r.get("miss") != "0" or r.get("bad") != "-1" or r.get("oob") != "0" or r.get("err") != "0" \
+                if not l.startswith("ok ") or r.get("dup") != "0" or r.get("miss") != "0" or r.get("bad") != "-1" or r.get("oob") != "0" or r.get("err") != "0" or r.get("lockerr") != "0" \
                         or r.get("eofs") != a["consumers"] or r.get("nseq") != str(nseq):
                     return Failure("monitor", "read-back differs from what was written (dup/miss/bad record, EOF not delivered to every consumer): %r" % l[:300])
                 amino = a["abc"] == "amino"
